@@ -122,6 +122,19 @@ func (st *State) unsupported(format string, args ...interface{}) {
 	st.abort("unsupported", fmt.Sprintf(format, args...)+where)
 }
 
+// whereAmI names the innermost executing functions (for traces).
+func (st *State) whereAmI() string {
+	where := ""
+	n := 0
+	for fr := st.curFrame; fr != nil && n < 3; fr = fr.caller {
+		if fr.fn != nil {
+			where += " < " + fr.fn.String()
+			n++
+		}
+	}
+	return where
+}
+
 // ---- memory ----
 
 func (st *State) newObject(t types.Type, name string, init Value) *Object {
@@ -263,6 +276,13 @@ func (st *State) branch1(c *Term) bool {
 	ff := st.feasible(Not(c))
 	switch {
 	case ft && ff:
+		if st.E.Trace {
+			cs := c.S
+			if len(cs) > 160 {
+				cs = cs[:160]
+			}
+			fmt.Printf("    fork %d: %s @ %s\n", len(st.decided), cs, st.whereAmI())
+		}
 		alt := make([]bool, len(st.decided)+1)
 		copy(alt, st.decided)
 		alt[len(st.decided)] = false
